@@ -663,7 +663,16 @@ def discharge_batch(obs, timeout_ms, lib):
 
 
 def discharge(ob, timeout_ms, want_models, lib, max_rounds=25):
-    """decide one obligation -> dict"""
+    """decide one obligation -> dict (a goal whose clause cannot even be built -- e.g. it compares a value outside
+    the model with a modelled one -- is undecided, never a crash and never a violation)"""
+    try:
+        return _discharge(ob, timeout_ms, want_models, lib, max_rounds)
+    except Unsupported as e:
+        return {"name": ob.name, "kind": ob.kind, "status": "unknown", "seconds": 0.0, "lineno": ob.lineno,
+                "props": list(ob.props), "trace": ob.trace[-12:], "reason": "unsupported goal: %s" % e, "ninst": 0}
+
+
+def _discharge(ob, timeout_ms, want_models, lib, max_rounds=25):
     hyps = list(ob.pc) + list(ob.hyps)
     negs_q = []
     extra_f = []
